@@ -618,8 +618,63 @@ def side_conditions_rule(ctx):
         obs.append(ob("C01.panic/side/table-index", bool(idxs) and not probs, ctx.where(g), "; ".join(probs) if probs else "%d table lookups, each `T[i %% T.len()]` with the same table" % len(idxs),
                       witness=None if not probs else "a template with about 1900 bound elements indexes past the end of the shorter table"))
     # scopes[index] in the generator relies on the parser's and the generator's scope stacks being mirrored (C05.mirror)
-    from rules.c05 import check_mirror
-    for x in check_mirror(ctx):
+    # the `_ => unreachable!()` of the HTML escapers is dead only while every character of the regex class has an arm (C14.escape)
+    try:
+        from rules.c14 import escape_rules
+        for x in escape_rules(ctx):
+            if re.search(r"C14\.escape/escape_html_(body|quote)$", x["key"]):
+                x = dict(x)
+                x["key"] = x["key"].replace("C14.escape", "C01.panic/side/escaper-arms")
+                obs.append(x)
+    except ImportError:
+        pass
+    # `name.strip_prefix(P).unwrap()` behind an enum tag: the tag is assigned only where `name.starts_with(P)` was tested on the
+    # name itself
+    import guards as G
+    for g in ctx.tc.fns:
+        if not g.body or g.module[:1] != ["parse"]:
+            continue
+        gs = None
+        for n in sir.walk(g.node, into_items=True):
+            if not (n.get("k") == "mcall" and n["m"] in ("unwrap", "expect") and n["recv"].get("k") == "mcall" and n["recv"]["m"] in ("strip_prefix", "strip_suffix") and n["recv"]["args"] and sir.strip_ref(n["recv"]["args"][0]).get("k") == "lit"):
+                continue
+            lit = sir.strip_ref(n["recv"]["args"][0])["v"]
+            test = "starts_with" if n["recv"]["m"] == "strip_prefix" else "ends_with"
+            gs = gs or G.guards_of(g.body)
+            subject = sir.expr_str(sir.strip_ref(n["recv"]["recv"])).replace(" ", "")
+            direct = False
+            tags = []
+            for kind, subj, pol in gs.get(id(n), []):
+                if kind == "cond" and pol:
+                    for y in sir.walk(subj):
+                        if y.get("k") == "mcall" and y["m"] == test and y["args"] and sir.strip_ref(y["args"][0]).get("v") == lit and sir.expr_str(sir.strip_ref(y["recv"])).replace(" ", "") == subject:
+                            direct = True
+                if kind == "pat" and pol and re.fullmatch(r"[\w:]+", subj[1]):
+                    tags.append(subj[1])
+            key = "C01.panic/side/strip-guard/%s/%s" % (g.qual.split("::")[-1], lit)
+            if direct:
+                obs.append(ob(key, True, ctx.where(g), "`%s(%r).unwrap()` under `%s(%r)` of the same string" % (n["recv"]["m"], lit, test, lit)))
+                continue
+            # through a tag: every place that produces the tag has tested the plain name
+            verdict, why = None, "no guard found in a form this rule reads"
+            for tag in tags[-1:]:
+                sites = [x for x in sir.walk(g.node, into_items=True) if x.get("k") == "path" and x["s"].endswith(tag.split("::")[-1]) and len(x["segs"]) >= 2]
+                okall, seen = True, 0
+                for sx in sites:
+                    tested = False
+                    for kind, subj, pol in gs.get(id(sx), []):
+                        if kind == "cond" and pol:
+                            for y in sir.walk(subj):
+                                if y.get("k") == "mcall" and y["m"] == test and y["args"] and sir.strip_ref(y["args"][0]).get("v") == lit:
+                                    tested = sir.strip_ref(y["recv"]).get("k") == "path"
+                                    seen += 1
+                    okall = okall and tested
+                if sites and seen:
+                    verdict = okall
+                    why = "the tag `%s` is produced at %d place(s), each under `%s(%r)` of the attribute name itself: %s" % (tag, len(sites), test, lit, okall)
+            obs.append(ob(key, verdict, ctx.where(g), why, witness=None if verdict is not False else "<view Data-id=\"1\"/>: the guard accepts a name the unwrap cannot strip"))
+    from rules.c05 import check_mirror, slot_key_rule
+    for x in check_mirror(ctx) + slot_key_rule(ctx):
         x = dict(x)
         x["key"] = x["key"].replace("C05.mirror", "C01.panic/side/mirror").replace("C05.", "C01.panic/side/c05.")
         obs.append(x)
